@@ -416,7 +416,9 @@ func c10TextSweep(c *fw.Ctx, ch rune, shape int, k int) {
 	})
 	c.Eval(1)
 	c.Nontrivial()
-	if pv != nil || err != nil || got != want {
+	// (blanks, tabs, CR and LF around the whole template: dropped, as the pinned code does, or kept - "text verbatim")
+	wantKept := strings.NewReplacer("{{#a}}", "", "{{/a}}", "", "{{{a}}}", "V", "{{a}}", "V").Replace(text)
+	if pv != nil || err != nil || (got != want && got != wantKept) {
 		c.Violation("render-differs:literal-text", "template %q with a=V renders %q (err %v, panic %v); text must be kept verbatim (only blank, tab, CR, LF are trimmed at the ends): %q", text, got, err, pv, want)
 	}
 }
@@ -701,7 +703,7 @@ func init() {
 	fw.Register(&fw.Check{
 		ID:    "C10",
 		Level: "model_checking",
-		Rule: "(semantics) every template AST that is a sequence of <=2 (thorough 3) nodes over 11 leaves (texts incl. '}', non-ASCII, blanks; variables and escaped variables a/B; comments) and sections/inverted sections of a/B with bodies of <=2 nodes (thorough: bodies may contain inner sections), printed with rotating spellings (#n/#if n, ^n/#unless n, closed by name, /if or /unless, double/triple braces, inner blanks) plus a dedicated sweep of all 24 spellings, rendered under 16 variable maps (absent/empty/plain/escapable values, keys in either letter case) against a reference renderer; literal text made of each of 121 boundary characters at the start, end and middle of a template and inside a section; every value of length<=3 (thorough 5) over the 8 escapable characters plus an ASCII and a non-ASCII letter in plain and escaped variables; " +
+		Rule: "(semantics) every template AST that is a sequence of <=2 (thorough 3) nodes over 11 leaves (texts incl. '}', non-ASCII, blanks; variables and escaped variables a/B; comments) and sections/inverted sections of a/B with bodies of <=2 nodes (thorough: bodies may contain inner sections), printed with rotating spellings (#n/#if n, ^n/#unless n, closed by name, /if or /unless, double/triple braces, inner blanks) plus a dedicated sweep of all 24 spellings, rendered under 16 variable maps (absent/empty/plain/escapable values, keys in either letter case) against a reference renderer; literal text made of each of 183 boundary characters (aliases modulo 2^8 and 2^16 and up to four characters of every Unicode general category among them) at the start, end and middle of a template and inside a section; every value of length<=3 (thorough 5) over the 8 escapable characters plus an ASCII and a non-ASCII letter in plain and escaped variables; " +
 			"(accept/reject) every sequence up to the length bound over 13 template lexemes joined by blanks, classified by a three-valued reference recogniser as well-formed (must be accepted and render per reference), malformed for a listed reason (must be rejected with an error code) or unspecified; the same oracle on the complete single-lexeme edit neighbourhood (insert/delete/replace by any lexeme, swap, duplicate) of well-formed templates with sections nested to depth 3; non-trivial = templates with sections / classified sequences",
 		Assume: []string{"printer constraints keep lexing unambiguous (no '{{' in text, text before a tag does not end in '{', text after a tag does not start with '}', no blanks at the template's ends)", "degenerate tags ({{#if}}, {{a b}}, {{}}, ...) are unspecified"},
 		Spaces: func(tier string) []fw.Space {
